@@ -126,6 +126,14 @@ fn hash_of(h: &History, t: usize) -> [u8; 20] {
 }
 
 fn run_history(h: &History, export_dir: &str, shape: &mut Shape) -> Result<u64, Fail> {
+    // a panic anywhere in the code under test (also at call sites of the read-out) is a refuting observation, not a harness crash
+    match catch_unwind(AssertUnwindSafe(|| run_history_inner(h, export_dir, shape))) {
+        Ok(r) => r,
+        Err(p) => Err(Fail { op_index: h.ops.len().saturating_sub(1), clause: "panic", signature: format!("udp.swarm.panic:{}", panic_text(&*p)), detail: format!("the tracker code panicked during this history: {}", panic_text(&*p)) }),
+    }
+}
+
+fn run_history_inner(h: &History, export_dir: &str, shape: &mut Shape) -> Result<u64, Fail> {
     let mut config = Config::default();
     config.protocol.max_response_peers = h.max_response_peers;
     config.cleaning.max_peer_age = h.max_peer_age;
@@ -749,6 +757,9 @@ fn gen_sweep(index: u64) -> Option<History> {
 }
 
 fn relevant(property: &str, clause: &str) -> bool {
+    if clause == "panic" {
+        return true;
+    }
     match property {
         "C01" => matches!(clause, "counts" | "handout" | "family" | "reply_kind" | "scrape" | "panic" | "peerlist" | "stats_torrents"),
         "C02" => matches!(clause, "peerlist"),
